@@ -1684,7 +1684,15 @@ func (e *Exec) tryMergeTriangle(st *State, fr *Frame, blk *ssa.BasicBlock, c *Te
 		}
 	}
 	if !hasList {
-		return false
+		// scalar-only join: merge when the arm is pure (arithmetic, conversions, loads), e.g.
+		// `if bit == 1 { x |= mask }` inside a fully unrolled loop, which would otherwise double the paths
+		for _, in := range arm.Instrs {
+			switch in.(type) {
+			case *ssa.BinOp, *ssa.UnOp, *ssa.Convert, *ssa.ChangeType, *ssa.Jump, *ssa.DebugRef:
+			default:
+				return false
+			}
+		}
 	}
 	// speculative execution of the arm
 	stT := st.clone()
